@@ -145,6 +145,20 @@ func (x *gg) v() *rt.Term {
 func (x *gg) atom() *rt.Term { return rt.A([]string{"a", "b", "[]", "f"}[x.n(0, 3, "a")]) }
 
 func (x *gg) term(d int) *rt.Term {
+	if d > 0 && x.p(3, "wide") {
+		// a compound of arity 9-12 with many distinct variables (vectors of more than 8 terms take another
+		// allocation path; a clause with more than 8 variables likewise)
+		args := make([]*rt.Term, x.n(9, 12, "widearity"))
+		for i := range args {
+			if x.p(70, "widevar") && x.nvars < 19 { // ids from 20 are the variables of the assert-time bindings
+				x.nvars++
+				args[i] = rt.V(int64(x.nvars - 1))
+			} else {
+				args[i] = x.term(0)
+			}
+		}
+		return rt.C("w", args...)
+	}
 	k := x.n(0, 13, "term")
 	switch {
 	case k < 3:
